@@ -80,24 +80,30 @@ def run(ctx):
     ok, info = prove(ctx, "MatidProps.C18", THEOREMS)
     if not ok:
         broken.append(("proof", info))
-    rng = np.random.default_rng(ctx.seed + 18)
+    rng = np.random.default_rng(common.sample_seed(ctx) + 18)
+    recorded = [e["repro"] for e in common.known_findings().get("known", []) if e.get("property") == "C18" and "repro" in e]
     target = ctx.n(14, 400)
     done = k = 0
     bad = []
     f_ok = f_fail = 0
     while done < target and k < target * 10:
-        s, desc, ads, expect, why = gen(rng, k)
-        k += 1
-        if why is not None:
-            ctx.count("skipped: " + why)
-            continue
-        perm = rng.permutation(len(s))
-        a = F.present(s[perm], rng, noise=0.0)       # present() permutes again; track the adsorbates through both
-        # identify adsorbates by species (absent from the slab by construction)
-        slab_species = set(s.get_atomic_numbers()[[i for i in range(len(s)) if i not in ads]].tolist())
-        A = {i for i, z in enumerate(a.get_atomic_numbers()) if int(z) not in slab_species}
-        desc["natoms"] = len(a)
-        done += 1
+        if recorded:
+            r = recorded.pop(0)
+            a, desc, expect = crystals.atoms_from_json(r["atoms"]), dict(r["desc"], known_finding_input=True), r["expect"]
+            A = set(r["adsorbate_indices"])
+        else:
+            s, desc, ads, expect, why = gen(rng, k)
+            k += 1
+            if why is not None:
+                ctx.count("skipped: " + why)
+                continue
+            perm = rng.permutation(len(s))
+            a = F.present(s[perm], rng, noise=0.0)       # present() permutes again; track the adsorbates through both
+            # identify adsorbates by species (absent from the slab by construction)
+            slab_species = set(s.get_atomic_numbers()[[i for i in range(len(s)) if i not in ads]].tolist())
+            A = {i for i, z in enumerate(a.get_atomic_numbers()) if int(z) not in slab_species}
+            desc["natoms"] = len(a)
+            done += 1
         ctx.count("kind_" + desc["kind"])
         try:
             with SC.FinderRecorder() as rec:
@@ -111,13 +117,21 @@ def run(ctx):
         f_ok += holds
         f_fail += not holds
         if name != expect:
-            bad.append({"desc": desc, "complaint": "classified as %s, expected %s" % (name, expect), "atoms": crystals.atoms_to_json(a)})
+            bad.append({"desc": desc, "signature": "%s-instead-of-%s" % (name, expect), "expect": expect, "adsorbate_indices": sorted(int(i) for i in A),
+                        "complaint": "classified as %s, expected %s" % (name, expect), "atoms": crystals.atoms_to_json(a)})
         elif set(int(i) for i in c.outliers) != A:
-            bad.append({"desc": desc, "complaint": "outliers %s, adsorbates %s" % (sorted(int(i) for i in c.outliers)[:6], sorted(A)[:6]), "atoms": crystals.atoms_to_json(a)})
+            bad.append({"desc": desc, "signature": "outliers", "expect": expect, "adsorbate_indices": sorted(int(i) for i in A),
+                        "complaint": "outliers %s, adsorbates %s" % (sorted(int(i) for i in c.outliers)[:6], sorted(A)[:6]), "atoms": crystals.atoms_to_json(a)})
     ctx.coverage["contract_F_held"] = f_ok
     ctx.coverage["contract_F_failed_but_property_judged_separately"] = f_fail
-    for b in bad[:5]:
-        ctx.finding("slab:%s:%s" % (b["desc"]["crystal"], b["desc"].get("hkl", "2D")), "%s %s: %s" % (b["desc"]["crystal"], b["desc"].get("hkl", ""), b["complaint"]),
+    seen = set()
+    for b in bad:
+        d = b["desc"]
+        key = "slab:%s:%s:L%s:ads%s:%s" % (d["crystal"], "".join(map(str, d.get("hkl", ""))) or "2D", d.get("layers", "-"), d.get("adsorbates", 0), b.get("signature", "exception"))
+        if key in seen or len(seen) >= 12:
+            continue
+        seen.add(key)
+        ctx.finding(key, "%s %s: %s" % (b["desc"]["crystal"], b["desc"].get("hkl", ""), b["complaint"]),
                     {"kind": "failing-input", "case": b, "how": "Classifier().classify(atoms)"})
     if broken and not ctx.findings:
         ctx.finding("unproved", "conditional theorem no longer checks, no failing structure found", {"kind": "broken-obligation", "broken": broken}, found_input=False)
